@@ -402,6 +402,16 @@ Proof.
   - destruct H1 as [H1|H1]; [subst; apply Hn; eapply Hsub; exact H2|exact (IH k Hnd' H1 H2)].
 Qed.
 
+(* inside this guard no variable holds a flavor: the flavors section of the snapshot is empty *)
+Lemma no_flavor_forms : forall l, forallb var_ok l = true -> flat_map flavor_forms l = [].
+Proof.
+  induction l as [|[n [ov d c]] l IH]; intro H; [reflexivity|].
+  cbn [forallb] in H. apply andb_true_iff in H. destruct H as [Hkv Hl].
+  cbn [flat_map]. rewrite (IH Hl). rewrite app_nil_r.
+  destruct ov as [v|]; [|reflexivity]. destruct v; try reflexivity. destruct c; [reflexivity|].
+  unfold var_ok in Hkv. cbn [fst snd snap_safe self_evaluating] in Hkv. rewrite andb_false_r in Hkv. discriminate.
+Qed.
+
 (* Theorem 2: a session inside the guard whose keys are unique (which every history guarantees) is rebuilt by loading
    its snapshot; every form of the snapshot loads; the snapshot of the rebuilt session is the same list of forms *)
 Theorem session_roundtrip : forall s, keys_nodup s -> sess_ok s = true ->
@@ -418,7 +428,8 @@ Proof.
   assert (Hload : load_forms empty_session (snapshot s)
                   = (mkS (consts_of sv ++ vars_of sv) sf,
                      repeat true (List.length (consts_of sv)) ++ repeat true (2 * List.length (vars_of sv)) ++ repeat true (List.length sf))).
-  { unfold snapshot. fold sv sf. rewrite load_forms_app. unfold empty_session.
+  { unfold snapshot. fold sv sf. rewrite (no_flavor_forms sv Hsvok). cbn [app].
+    rewrite load_forms_app. unfold empty_session.
     rewrite (load_consts sv [] [] Hsvok Hsvnd); [|intros k _ []|intros k []]. cbn [app].
     rewrite load_forms_app.
     rewrite (load_vars sv (consts_of sv) [] Hsvok Hsvnd).
@@ -517,9 +528,18 @@ Proof.
                | _, _ => false
                end) l l = true).
   { induction l as [|a r IH]; intro H; [reflexivity|]. inversion H; subst. rewrite H2. cbn [andb]. apply IH. assumption. }
+  assert (Halls : forall l, Forall (fun kv : string * obj => obj_eqb (snd kv) (snd kv) = true) l ->
+            (fix alls (l1 l2 : list (string * obj)) : bool :=
+               match l1, l2 with
+               | [], [] => true
+               | (k1, v1) :: r1, (k2, v2) :: r2 => (k1 =? k2)%string && obj_eqb v1 v2 && alls r1 r2
+               | _, _ => false
+               end) l l = true).
+  { induction l as [|[k w] r IH]; intro H; [reflexivity|]. inversion H as [|? ? Hw Hr]; subst. cbn [snd] in Hw.
+    rewrite String.eqb_refl, Hw. cbn [andb]. apply IH. exact Hr. }
   induction v using obj_ind2; cbn [obj_eqb];
     try reflexivity; try apply Z.eqb_refl; try apply String.eqb_refl;
-    rewrite ?String.eqb_refl, ?Hall, ?IHv, ?Bool.eqb_reflx by assumption; try reflexivity.
+    rewrite ?String.eqb_refl, ?Hall, ?Halls, ?IHv, ?Bool.eqb_reflx by assumption; try reflexivity.
   - destruct (list_eq_dec Nat.eq_dec dims dims); [reflexivity|contradiction].
   - induction kvs as [|[k w] r IH]; [reflexivity|]. inversion H as [|? ? [Hk Hw] Hr]; subst. cbn [fst snd] in *.
     rewrite Hk, Hw. cbn [andb]. apply IH. exact Hr.
